@@ -36,7 +36,10 @@ def _limits():
 def main():
     pid, cin, cout = sys.argv[1:4]
     signal = _limits()
-    per_case = float(os.environ.get("VERIF_CASE_TIMEOUT", "60"))
+    import time
+    per_case = float(os.environ.get("VERIF_CASE_TIMEOUT", "30"))
+    budget = float(os.environ.get("VERIF_RUN_BUDGET", "420"))     # wall-clock seconds for the whole list of cases
+    t0 = time.time()
     timeouts = 0
     import dyce
     repo = os.environ.get("DYCE_REPO", "/repo")
@@ -46,12 +49,13 @@ def main():
     cases = json.load(open(cin))
     out = []
     for c in cases:
-        if timeouts >= 4:
-            # the library hangs on input after input: the remaining cases get a bounded look each ...
-            per_case = min(per_case, 3.0)
-        if timeouts >= 16:
+        spent = time.time() - t0
+        if timeouts >= 4 or spent > budget / 2:
+            # the library hangs (or crawls) on input after input: the remaining cases get a bounded look each ...
+            per_case = min(per_case, 2.0)
+        if timeouts >= 16 or spent > budget:
             # ... and after many more of those, none (the run is reported with the inputs that timed out)
-            out.append({"exc": "Timeout", "msg": "not run: the implementation timed out on 16 earlier cases"})
+            out.append({"exc": "Timeout", "msg": "not run: the implementation timed out on earlier cases / the run exceeded its time budget"})
             continue
         try:
             signal.setitimer(signal.ITIMER_REAL, per_case)
